@@ -1,28 +1,58 @@
 """C03 — statements are recovered exactly, whatever the layout of the config text."""
+import io
+import locale
+import os
+import random
+import tempfile
+
 from vf import gen, probes, snap
 from vf.teq import canon
 
 ID = 'C03'
 LEVEL = 'exploration'
-RULE = ('abstract statement lists (bindings with literal / @reference / %macro values, macro definitions incl. scope-like names, imports in all four '
-        'forms, includes) and 2-5 renderings each produced by a layout randomiser (blank lines, full-line and trailing comments, comment after a block '
-        'header, blank/comment lines inside blocks, backslash continuations before/after "=", spaces/tabs around "=", flat vs block form for runs '
-        'sharing (scope, selector), block at EOF with/without final newline, block followed directly by a flat binding or another block, consistent '
-        'indentation of flat runs, multi-line bracketed values). Oracles: (a) the statement stream of the real ConfigParser (recording delegate) equals the '
-        'generator\'s abstract list incl. start line numbers; (b) parse_config of every rendering gives the same store, import set and config_str(). '
-        'Negative: scoped names with inner whitespace, empty components or misplaced separators raise SyntaxError and bind nothing. '
-        'distinct = (statement-kind sequence, layout feature set)')
+RULE = ('abstract statement lists (bindings with literal / @reference / %macro values and containers holding references and macros as items, dict values '
+        'and dict keys, macro definitions incl. scope-like names, imports in all four forms, includes) and 2-5 renderings each produced by a layout '
+        'randomiser (blank lines, full-line and trailing comments, comments ending in a backslash, comment after a block header, blank/comment lines '
+        'inside blocks, backslash continuations before/after "=", inside imports, after include and before a block header\'s ":", spaces/tabs around "=", '
+        'flat vs block form for runs sharing (scope, selector), block at EOF with/without final newline, block followed directly by a flat binding or '
+        'another block, consistent indentation of flat runs incl. an indented first statement and tab indentation, multi-line bracketed values with '
+        'references on later lines and after triple-quoted strings); statement-free texts (empty, whitespace-only, comment-only). Oracles: (a) the '
+        'statement stream of the real ConfigParser (recording delegate) equals the generator\'s abstract list incl. start line numbers; (b) parse_config '
+        'of every rendering gives the same store, import set and config_str(), the store and the recorded imports (module, from-form, alias) equal the '
+        'abstract program; (c) the same text given as list/tuple of lines, StringIO, BytesIO or file gives the same result as the string. '
+        'Negative: scoped names with inner whitespace (blank, tab, form feed, continuation), empty components or misplaced separators, generated from '
+        'valid names and placed as flat key, macro key, block header, block member, reference/macro value, container item, dict key/value, on a later '
+        'line, after a rendered valid prefix program, raise and bind nothing. distinct = (statement-kind sequence, layout feature set)')
 TIERS = {
     'quick': {'workers': 8, 'cases': 1000, 'timeout': 600},
     'thorough': {'workers': 16, 'cases': 15000, 'timeout': 3000},
 }
 LAYOUTS = ['blank-lines', 'comment-line', 'trailing-comment', 'comment-with-raw-control-char', 'block', 'block-header-comment', 'block-inner-blank', 'block-inner-comment', 'block-at-eof-no-newline',
            'block-then-flat', 'block-then-block', 'cont-before-eq', 'cont-after-eq', 'no-space-eq', 'tab-eq', 'indented-flat-run', 'multiline-value',
-           'no-final-newline', 'block-member-continuation', 'dedent-two-levels']
+           'no-final-newline', 'block-member-continuation', 'dedent-two-levels',
+           # shapes added after the audit
+           'indented-first-statement', 'tab-indentation', 'cont-in-import', 'cont-after-include', 'cont-before-block-colon', 'space-before-block-colon',
+           'comment-ending-in-backslash', 'ref-in-container', 'ref-on-later-line', 'ref-after-triple-quoted', 'ref-as-dict-key', 'ref-as-dict-value',
+           'ref-followed-by-comment-in-bracket']
+ENTRY_FORMS = ['list-of-lines', 'tuple-of-lines', 'stringio', 'bytesio', 'file']
+NEG_CONTEXTS = ['flat-key', 'macro-def-key', 'block-header', 'block-member', 'ref-value', 'macro-value', 'in-list', 'dict-key', 'dict-value', 'later-line',
+                'after-triple-quoted']
+NEG_OPS = ['inner-whitespace', 'form-feed', 'continuation', 'empty-component', 'misplaced-separator']
 REQUIRED_BUCKETS = (['layout:' + l for l in LAYOUTS] + ['stmt:bind', 'stmt:macro', 'stmt:scoped-macro', 'stmt:import', 'stmt:import-as', 'stmt:from', 'stmt:from-as',
                     'stmt:include', 'value:reference', 'value:macro', 'neg:inner-whitespace', 'neg:empty-component', 'neg:misplaced-separator', 'neg:in-reference',
-                    'neg:in-block-header', 'neg:in-import', 'neg:continuation-inside-name', 'neg:spelling-valid-elsewhere-first', 'renderings:3+', 'stmt:keyword-named'])
-ORACLE_COUNTERS = ['oracle_evals', 'streams_compared', 'renderings_parsed', 'negatives_rejected']
+                    'neg:in-block-header', 'neg:in-import', 'neg:continuation-inside-name', 'neg:spelling-valid-elsewhere-first', 'renderings:3+', 'stmt:keyword-named',
+                    'value:container-with-references', 'neg:in-block-member', 'neg:in-dict', 'neg:in-macro-key', 'neg:form-feed',
+                    'shape:empty-text', 'shape:whitespace-only', 'shape:comment-only', 'imports:alias-recorded']
+                    + ['entry:' + f for f in ENTRY_FORMS] + ['empty-entry:' + f for f in ['string'] + ENTRY_FORMS]
+                    + ['neg-ctx:' + c for c in NEG_CONTEXTS] + ['neg-op:' + o for o in NEG_OPS])
+ORACLE_COUNTERS = ['oracle_evals', 'streams_compared', 'renderings_parsed', 'negatives_rejected', 'entry_forms_compared', 'generated_negatives_rejected',
+                   'empty_texts_parsed']
+
+# Generator features that can be switched off (none needs to be at the moment: gin behaves as the property says on all of them).
+ENABLE_NESTED_REFERENCES = True
+ENABLE_ENTRY_FORMS = True
+ENABLE_GENERATED_NEGATIVES = True
+ENABLE_EMPTY_TEXTS = True
 
 NEGATIVES = [
     ('neg:inner-whitespace', 'a /c3f.x = 1'), ('neg:inner-whitespace', 'a/ c3f.x = 1'), ('neg:inner-whitespace', 'c3f. x = 1'), ('neg:inner-whitespace', 'c3f .x = 1'),
@@ -48,7 +78,28 @@ NEGATIVES = [
     ('neg:in-import', 'import .os'), ('neg:in-import', 'from os. import path'), ('neg:in-import', 'import os. path'), ('neg:in-import', 'import os /path'),
     ('neg:in-import', 'import os..path'), ('neg:in-import', 'from os import path as a/b'), ('neg:in-import', 'from os/x import path'), ('neg:in-import', 'import os as a b'),
     ('neg:in-import', 'from os import path sep'), ('neg:in-import', 'from xml import etree.ElementTree  # comment'),
+    # a block member is a bare parameter name: a scope separator in it is misplaced (never repaired to the last component)
+    ('neg:in-block-member', 'c3f:\n  a/x = 1\n'), ('neg:in-block-member', 'c3f:\n  a /x = 1\n'), ('neg:in-block-member', 'a/c3f:\n    /x = 1\n'),
+    ('neg:in-block-member', 'c3f:\n  x. = 1\n'), ('neg:in-block-member', 'c3f:\n\ta//x = 1\n'), ('neg:in-block-member', 'c3f:\n  x/ = 1'),
+    # references and macros as dict keys / dict values / on later lines of a container
+    ('neg:in-dict', 'c3f.x = {@a /c3g: 1}'), ('neg:in-dict', "c3f.x = {'k': @a/ c3g}"), ('neg:in-dict', "c3f.x = {'k': %a /m}"), ('neg:in-dict', 'c3f.x = {%a/ m: 1}'),
+    ('neg:in-dict', "c3f.x = {'k': 1,\n  @a//c3g(): 2}"), ('neg:in-dict', "c3f.x = {\n  'k': [@c3. c3g]\n}"), ('neg:in-dict', "c3f.x = {'k': @a/c3g.}"),
+    # macro-definition keys
+    ('neg:in-macro-key', 'a /m = 1'), ('neg:in-macro-key', 'a/ m = 1'), ('neg:in-macro-key', 'a//m = 1'), ('neg:in-macro-key', '/m = 1'), ('neg:in-macro-key', 'a/m/ = 1'),
+    ('neg:in-macro-key', 'a/b /m = 1'), ('neg:in-macro-key', 'a\t/m = 1'), ('neg:in-macro-key', 'a./m = 1'),
+    # a form feed is whitespace to the tokenizer
+    ('neg:form-feed', 'a\x0c/c3f.x = 1'), ('neg:form-feed', 'a/c3f\x0c.x = 1'), ('neg:form-feed', 'c3f.x = @a\x0c/c3g'), ('neg:form-feed', 'c3f.x = %a/\x0cm'),
+    ('neg:form-feed', 'a/\x0cc3f:\n  x = 1\n'), ('neg:form-feed', 'a\x0c/m = 1'),
 ]
+
+REF_NAMES = ['c3g', 'a/c3g', 'a/b/c3h', 'c3.m.c3g', 'x.y/c3g', 'm.c3h']
+MACRO_NAMES = ['c3mac', 'a/c3mac', 'a.b/mm', 'gin.REQUIRED_not']
+TRIPLE_QUOTED = ['a\nb', 'x\n  y = @c3g()\n', '# not a comment\n', 'one line', '\n\n', 'c3f:\n  x = 1\n']
+SELECTORS = {'c3f': 'c3.m.c3f', 'c3g': 'c3.m.c3g', 'c3.m.c3f': 'c3.m.c3f', 'm.c3h': 'c3.m.c3h', 'include': 'c3.m.include'}
+
+# statement-free texts, ordered so that the three shapes are met by the first three 'empty' cases of every worker
+EMPTY_SHAPES = ['', '   ', '# c', '\n', '  \n', '# c\n', '\t', '\t\n', '  # c', '\n\n   # c\n  \n', '# c \\', '# c \\\n', '\n\n\n', '# a\n# b', ' \n# x = 1\n\t\n',
+                '# c3f.x = 1\x0bc3f.y = 2\n', '#', '#\n#\n', '    # c3f:\n    #   x = 1\n']
 
 
 def setup(ctx):
@@ -57,20 +108,73 @@ def setup(ctx):
                   'varargs': False, 'kwonly': [], 'varkw': False})
 
 
+def gen_mix(rng, depth):
+  """A container whose items / dict values / dict keys may be references and macros.
+
+  At most one reference-like key per dict: two of them cannot be ordered, and config_str (pprint) would then order the items by object id
+  (C06's known finding), which is not a layout effect."""
+
+  def leaf():
+    r = rng.random()
+    if r < 0.35:
+      return ['ref', rng.choice(REF_NAMES), rng.random() < 0.6]
+    if r < 0.55:
+      return ['macro', rng.choice(MACRO_NAMES)]
+    if r < 0.67:
+      return ['tq', rng.choice(TRIPLE_QUOTED)]
+    if r < 0.8 and depth > 0:
+      return gen_mix(rng, depth - 1)
+    return ['lit', gen.gen_value(rng, depth=rng.choice([0, 0, 1]))]
+
+  k = rng.randrange(3)
+  n = rng.choice([1, 2, 2, 3, 4])
+  if k == 0:
+    return ['L', [leaf() for _ in range(n)]]
+  if k == 1:
+    return ['T', [leaf() for _ in range(n)]]
+  refkey_at = rng.randrange(n) if rng.random() < 0.5 else -1
+  items = []
+  for i in range(n):
+    if i == refkey_at:
+      key = ['ref', rng.choice(REF_NAMES), rng.random() < 0.5] if rng.random() < 0.6 else ['macro', rng.choice(MACRO_NAMES)]
+    else:
+      key = ['lit', rng.choice(['k%d' % i, i, 'key %d' % i])]
+    items.append([key, leaf()])
+  return ['D', items]
+
+
+def mix_has_reference(node):
+  if node[0] in ('ref', 'macro'):
+    return True
+  if node[0] in ('L', 'T'):
+    return any(mix_has_reference(x) for x in node[1])
+  if node[0] == 'D':
+    return any(mix_has_reference(a) or mix_has_reference(b) for a, b in node[1])
+  return False
+
+
 def gen_stmt(rng):
   r = rng.random()
   if r < 0.62:
     k = rng.random()
-    if k < 0.6:
+    if ENABLE_NESTED_REFERENCES and k < 0.17:
+      v = ['mix', gen_mix(rng, rng.choice([0, 1, 2]))]
+    elif k < 0.6:
       v = ['lit', gen.gen_value(rng, depth=rng.choice([0, 0, 1, 2, 3]))]
     elif k < 0.85:
-      v = ['ref', rng.choice(['c3g', 'a/c3g', 'a/b/c3h', 'c3.m.c3g', 'x.y/c3g', 'm.c3h']), rng.random() < 0.6]
+      v = ['ref', rng.choice(REF_NAMES), rng.random() < 0.6]
     else:
-      v = ['macro', rng.choice(['c3mac', 'a/c3mac', 'a.b/mm', 'gin.REQUIRED_not'])]
+      v = ['macro', rng.choice(MACRO_NAMES)]
     return ['bind', rng.choice(['', '', 'a', 'a/b', 'train', 'x/y/z', 'import', 'from/include']), rng.choice(['c3f', 'c3g', 'c3.m.c3f', 'm.c3h', 'include']),
             rng.choice(['x', 'y', 'zz', 'w_1']), v]
   if r < 0.74:
-    v = ['lit', gen.gen_value(rng, depth=rng.choice([0, 1, 2]))] if rng.random() < 0.8 else ['ref', 'c3g', True]
+    k = rng.random()
+    if ENABLE_NESTED_REFERENCES and k < 0.12:
+      v = ['mix', gen_mix(rng, rng.choice([0, 1]))]
+    elif k < 0.8:
+      v = ['lit', gen.gen_value(rng, depth=rng.choice([0, 1, 2]))]
+    else:
+      v = ['ref', 'c3g', True]
     return ['macro', rng.choice(['c3mac', 'c3mac2', 'a/c3mac', 'a/b/mm', 'UPPER', 'from', 'import', 'include', 'a/include']), v]
   if r < 0.94:
     form = rng.choice(['import', 'import-as', 'from', 'from-as'])
@@ -85,22 +189,115 @@ def gen_stmt(rng):
   return ['include', rng.choice(['a.gin', 'dir/b.gin', 'pkg.sub/c.gin', "it's.gin"])]
 
 
+def gen_stmts(rng, sizes):
+  stmts = [gen_stmt(rng) for _ in range(rng.choice(sizes))]
+  # make flat/block grouping possible: sometimes repeat the previous binding's (scope, selector)
+  for j in range(1, len(stmts)):
+    if stmts[j][0] == 'bind' and stmts[j - 1][0] == 'bind' and rng.random() < 0.5:
+      stmts[j][1], stmts[j][2] = stmts[j - 1][1], stmts[j - 1][2]
+  return stmts
+
+
 def iter_cases(ctx, rng, n):
+  n_empty = n_neg2 = n_pos = 0
   for i in range(n):
     if i % 10 == 9:
       yield {'kind': 'neg', 'which': rng.randrange(len(NEGATIVES)), 'prefix': rng.random() < 0.5}
       continue
-    stmts = [gen_stmt(rng) for _ in range(rng.choice([1, 2, 3, 5, 8, 12]))]
-    # make flat/block grouping possible: sometimes repeat the previous binding's (scope, selector)
-    for j in range(1, len(stmts)):
-      if stmts[j][0] == 'bind' and stmts[j - 1][0] == 'bind' and rng.random() < 0.5:
-        stmts[j][1], stmts[j][2] = stmts[j - 1][1], stmts[j - 1][2]
-    yield {'kind': 'pos', 'stmts': stmts, 'seeds': [rng.randrange(1 << 30) for _ in range(rng.choice([2, 2, 3, 4, 5]))]}
+    if ENABLE_GENERATED_NEGATIVES and i % 10 == 4:
+      # contexts and malformations are cycled (11 and 5 are coprime: 55 consecutive cases meet every pair)
+      yield {'kind': 'neg2', 'ctx': NEG_CONTEXTS[n_neg2 % len(NEG_CONTEXTS)], 'op': NEG_OPS[n_neg2 % len(NEG_OPS)],
+             'prefix': [s for s in gen_stmts(rng, [0, 0, 1, 2, 3]) if s[0] != 'include'], 'seed': rng.randrange(1 << 30)}
+      n_neg2 += 1
+      continue
+    if ENABLE_EMPTY_TEXTS and i % 20 == 7:
+      forms = ['string'] + ENTRY_FORMS
+      yield {'kind': 'empty', 'shape': n_empty % (len(EMPTY_SHAPES) + 3), 'entry': forms[n_empty % len(forms)], 'seed': rng.randrange(1 << 30),
+             'onto': rng.random() < 0.5}
+      n_empty += 1
+      continue
+    stmts = gen_stmts(rng, [1, 2, 3, 5, 8, 12])
+    yield {'kind': 'pos', 'stmts': stmts, 'seeds': [rng.randrange(1 << 30) for _ in range(rng.choice([2, 2, 3, 4, 5]))],
+           'entry': ENTRY_FORMS[n_pos % len(ENTRY_FORMS)]}
+    n_pos += 1
+
+
+# ---------------------------------------------------------------------------
+# values
+
+
+def mix_text(rng, node, used, wild, state):
+  """Text of a container holding references / macros; whitespace, newlines, comments and continuations between the tokens."""
+
+  def ws():
+    r = rng.random()
+    if r < 0.5:
+      return rng.choice(['', ' ', ' ', '\t'])
+    state['nl'] = True
+    if r < 0.72:
+      return '\n' + ' ' * rng.randrange(0, 9)
+    if r < 0.84:
+      return '  # c%d [1, @x(\n' % rng.randrange(9) + ' ' * rng.randrange(0, 6)
+    if r < 0.92:
+      return '\n\n\t'
+    return ' \\\n' + ' ' * rng.randrange(0, 5)
+
+  k = node[0]
+  if k in ('ref', 'macro'):
+    used.add('ref-in-container')
+    if state.get('nl'):
+      used.add('ref-on-later-line')
+    if state.get('tq'):
+      used.add('ref-after-triple-quoted')
+    return ('@' + node[1] + ('()' if node[2] else '')) if k == 'ref' else '%' + node[1]
+  if k == 'tq':
+    q = rng.choice(["'''", '"""'])
+    if '\n' in node[1]:
+      state['nl'] = True
+      state['tq'] = True
+    return q + node[1] + q
+  if k == 'lit':
+    text, _ = gen.render_value(rng, node[1], wild=wild, multiline=True)
+    if '\n' in text:
+      state['nl'] = True
+    return text
+
+  def item(x):
+    t = mix_text(rng, x, used, wild, state)
+    is_ref = x[0] in ('ref', 'macro')
+    s = ws()
+    if is_ref and '#' in s:
+      used.add('ref-followed-by-comment-in-bracket')
+    return t + s
+
+  if k in ('L', 'T'):
+    o, c = ('[', ']') if k == 'L' else ('(', ')')
+    out = o + ws()
+    for i, x in enumerate(node[1]):
+      out += item(x)
+      if i < len(node[1]) - 1 or (k == 'T' and len(node[1]) == 1) or rng.random() < 0.3:
+        out += ',' + ws()
+    return out + c
+  out = '{' + ws()
+  for i, (a, b) in enumerate(node[1]):
+    if a[0] in ('ref', 'macro'):
+      used.add('ref-as-dict-key')
+    if b[0] in ('ref', 'macro'):
+      used.add('ref-as-dict-value')
+    out += item(a) + ':' + ws() + item(b)
+    if i < len(node[1]) - 1 or rng.random() < 0.3:
+      out += ',' + ws()
+  return out + '}'
 
 
 def value_text(rng, v, used, wild):
   if v[0] == 'lit':
     text, u = gen.render_value(rng, v[1], wild=wild, multiline=True)
+    if '\n' in text:
+      used.add('multiline-value')
+    return text
+  if v[0] == 'mix':
+    text = mix_text(rng, v[1], used, wild, {})
     if '\n' in text:
       used.add('multiline-value')
     return text
@@ -121,22 +318,65 @@ def abstract(stmt):
   return ('include', stmt[1])
 
 
+def mix_obj(node):
+  """The value the recording delegate of parser_stream is expected to build."""
+  k = node[0]
+  if k == 'L':
+    return [mix_obj(x) for x in node[1]]
+  if k == 'T':
+    return tuple(mix_obj(x) for x in node[1])
+  if k == 'D':
+    return {mix_obj(a): mix_obj(b) for a, b in node[1]}
+  if k in ('lit', 'tq'):
+    return node[1]
+  if k == 'ref':
+    return ('@ref', node[1], bool(node[2]))
+  return ('%macro', node[1])
+
+
+class _Unorderable(object):
+  """Stands for a reference when asking whether pprint can order a dict's keys."""
+
+
+def mix_skeleton(node):
+  k = node[0]
+  if k == 'L':
+    return [mix_skeleton(x) for x in node[1]]
+  if k == 'T':
+    return tuple(mix_skeleton(x) for x in node[1])
+  if k == 'D':
+    return {mix_skeleton(a): mix_skeleton(b) for a, b in node[1]}
+  if k in ('lit', 'tq'):
+    return node[1]
+  return _Unorderable()
+
+
 def value_canon(v):
   if v[0] == 'lit':
     return canon(v[1])
+  if v[0] == 'mix':
+    return canon(mix_obj(v[1]))
   if v[0] == 'ref':
     return canon(('@ref', v[1], bool(v[2])))
   return canon(('%macro', v[1]))
 
 
-def render(stmts, seed, with_includes=True):
-  """Returns (text, [(abstract tuple, start line)], layout features used)."""
-  import random
+# ---------------------------------------------------------------------------
+# renderer
+
+
+def render(stmts, seed, with_includes=True, final_newline=None):
+  """Returns (text, [(abstract tuple, start line)], layout features used).
+
+  Indentation levels are strings, each deeper level extending the enclosing one (so that tabs and spaces never become inconsistent)."""
   rng = random.Random(seed)
   used = set()
   lines = []      # physical lines
   expect = []
-  indent_stack = [0]
+  indent_stack = ['']
+  if stmts and rng.random() < 0.15:
+    indent_stack.append(rng.choice([' ', '  ', '    ', '\t']))
+    used.add('indented-first-statement')
   i = 0
   wild = rng.choice([0.0, 0.3, 0.7])
 
@@ -158,19 +398,24 @@ def render(stmts, seed, with_includes=True):
 
   def ctl():
     # a comment may contain characters that str.splitlines() treats as line boundaries; to the parser they are ordinary characters
+    s = ''
     if rng.random() < 0.25:
       used.add('comment-with-raw-control-char')
-      return rng.choice(gen.RAW_CONTROL) + 'tail_macro = 7'
-    return ''
+      s = rng.choice(gen.RAW_CONTROL) + 'tail_macro = 7'
+    if rng.random() < 0.12:
+      # a backslash at the end of a comment continues nothing
+      used.add('comment-ending-in-backslash')
+      s += rng.choice([' \\', '\\'])
+    return s
 
   def filler(ind):
     for _ in range(rng.choice([0, 0, 0, 1, 2])):
       if rng.random() < 0.5:
         used.add('blank-lines')
-        lines.append(rng.choice(['', '', '   ']))
+        lines.append(rng.choice(['', '', '   ', '\t']))
       else:
         used.add('comment-line')
-        lines.append(' ' * rng.choice([0, ind, 7]) + '# comment: x.y = [1, (\n'.rstrip('\n') + ctl())
+        lines.append(rng.choice(['', ind, ' ' * 7]) + '# comment: x.y = [1, (\n'.rstrip('\n') + ctl())
 
   def trailing():
     if rng.random() < 0.2:
@@ -178,13 +423,27 @@ def render(stmts, seed, with_includes=True):
       return '  # trailing = 3' + ctl()
     return ''
 
+  def deeper(ind, widths):
+    return ind + rng.choice([' ' * w for w in widths] + ['\t'])
+
   def emit(text, ind):
     """Emit a possibly multi-line statement text at indentation ind; returns its start line (1-based)."""
     start = len(lines) + 1
     parts = text.split('\n')
-    lines.append(' ' * ind + parts[0])
+    if '\t' in ind:
+      used.add('tab-indentation')
+    lines.append(ind + parts[0])
     lines.extend(parts[1:])
     return start
+
+  def gap(feature):
+    k = rng.random()
+    if k < 0.66:
+      return ' '
+    if k < 0.8:
+      return rng.choice(['  ', '\t'])
+    used.add(feature)
+    return rng.choice([' \\\n', '\\\n', ' \\\n   ', ' \\\n\t', '\\\n '])
 
   prev_was_block = False
   while i < len(stmts):
@@ -201,20 +460,28 @@ def render(stmts, seed, with_includes=True):
         used.add('block')
         if prev_was_block:
           used.add('block-then-block')
-        hdr = (st[1] + '/' if st[1] else '') + st[2] + ':'
+        hdr = (st[1] + '/' if st[1] else '') + st[2]
+        k = rng.random()
+        if k < 0.12:
+          used.add('space-before-block-colon')
+          hdr += rng.choice([' ', '  ', '\t'])
+        elif k < 0.22:
+          used.add('cont-before-block-colon')
+          hdr += rng.choice([' \\\n', '\\\n', ' \\\n    ', '\\\n\t'])
+        hdr += ':'
         if rng.random() < 0.3:
           used.add('block-header-comment')
-          hdr += '   # header comment'
+          hdr += '   # header comment' + ctl()
         emit(hdr, ind)
-        mind = ind + rng.choice([1, 2, 4, 8])
+        mind = deeper(ind, [1, 2, 4, 8])
         for m in run:
           for _ in range(rng.choice([0, 0, 1])):
             if rng.random() < 0.5:
               used.add('block-inner-blank')
-              lines.append('')
+              lines.append(rng.choice(['', '', mind, '\t']))
             else:
               used.add('block-inner-comment')
-              lines.append(' ' * rng.choice([0, mind, ind]) + '# inner comment' + ctl())
+              lines.append(rng.choice(['', mind, ind]) + '# inner comment' + ctl())
           e = eq()
           if '\\' in e:
             used.add('block-member-continuation')
@@ -239,31 +506,34 @@ def render(stmts, seed, with_includes=True):
       form, mod, alias = st[1], st[2], st[3]
       if form.startswith('from'):
         a, _, b = mod.rpartition('.')
-        text = 'from %s import %s' % (a, b)
+        toks = ['from', a, 'import', b]
       else:
-        text = 'import ' + mod
+        toks = ['import', mod]
       if alias:
-        text += ' as ' + alias
-      if rng.random() < 0.3:
-        text = text.replace(' ', '  ')
+        toks += ['as', alias]
+      text = toks[0]
+      for t in toks[1:]:
+        text += gap('cont-in-import') + t
       start = emit(text + trailing(), ind)
       expect.append((abstract(st), start))
     else:
       q = '"' if "'" in st[1] else rng.choice(["'", '"'])
-      start = emit('include ' + rng.choice(['', ' ']) + q + st[1] + q + trailing(), ind)
+      start = emit('include' + gap('cont-after-include') + q + st[1] + q + trailing(), ind)
       expect.append((abstract(st), start))
     prev_was_block = False
     i += 1
     # indentation of the following flat run: deeper, same, or back to an enclosing level
     k = rng.random()
     if k < 0.12:
-      indent_stack.append(indent_stack[-1] + rng.choice([2, 4]))
+      indent_stack.append(deeper(indent_stack[-1], [2, 4]))
       used.add('indented-flat-run')
     elif k < 0.3 and len(indent_stack) > 1:
       indent_stack.pop()
-  filler(0)
+  filler('')
   text = '\n'.join(lines)
-  if rng.random() < 0.5:
+  if final_newline is None:
+    final_newline = rng.random() < 0.5
+  if final_newline:
     text += '\n'
   else:
     used.add('no-final-newline')
@@ -296,35 +566,288 @@ def parser_stream(text):
   return out
 
 
+# ---------------------------------------------------------------------------
+# entry forms of parse_config
+
+
+def _utf8_files():
+  try:
+    return locale.getpreferredencoding(False).lower().replace('-', '') == 'utf8'
+  except Exception:  # pylint: disable=broad-except
+    return False
+
+
+def effective_form(text, form):
+  """Falls back to a form that does not depend on the platform where the requested one would (newline translation / locale encoding of open())."""
+  if form == 'file' and ('\r' in text or not (text.isascii() or _utf8_files())):
+    form = 'bytesio'
+  if form in ('file', 'bytesio'):
+    try:
+      text.encode('utf-8')
+    except UnicodeError:
+      form = 'stringio'
+  return form
+
+
+def parse_via(gin, text, form):
+  """parse_config of the same text through one of the documented input forms; returns (includes, imported module names)."""
+  if form == 'string':
+    return gin.parse_config(text)
+  if form == 'list-of-lines':
+    return gin.parse_config(text.split('\n'))
+  if form == 'tuple-of-lines':
+    return gin.parse_config(tuple(text.split('\n')))
+  if form == 'stringio':
+    return gin.parse_config(io.StringIO(text))
+  if form == 'bytesio':
+    return gin.parse_config(io.BytesIO(text.encode('utf-8')))
+  assert form == 'file', form
+  fd, path = tempfile.mkstemp(prefix='c03-', suffix='.gin')
+  try:
+    with os.fdopen(fd, 'w', encoding='utf-8', newline='') as f:
+      f.write(text)
+    r = gin.parse_config_file(path)
+    return r.includes, r.imports
+  finally:
+    os.unlink(path)
+
+
+def observe(gin, gc, text, form):
+  gin.clear_config()
+  ret = parse_via(gin, text, form)
+  return {'store': snap.store_nonempty(gc), 'imports': sorted({(s.module, bool(s.is_from), s.alias or '') for s in gc._IMPORTS}), 'str': gin.config_str(),
+          # the returned module names as a set: whether parse_config reports a module imported twice once or twice is not pinned down
+          'ret_imports': sorted(set(ret[1])), 'ret_includes': list(ret[0]), 'text': text}
+
+
+def stmt_has_unorderable_dict(s):
+  from vf.checks import c06
+  v = s[-1]
+  if s[0] not in ('bind', 'macro'):
+    return False
+  if v[0] == 'lit':
+    return c06.has_unorderable_dict(v[1])
+  if v[0] == 'mix':
+    return c06.has_unorderable_dict(mix_skeleton(v[1]))
+  return False
+
+
+def compare_observations(ctx, a, b, stmts, key_cfg, key_str, what):
+  ctx.check(a['store'] == b['store'] and a['imports'] == b['imports'] and a['ret_imports'] == b['ret_imports'], key_cfg,
+            '%s give different stores/imports: %r' % (what, snap.diff(a['store'], b['store']) or (a['imports'], b['imports'], a['ret_imports'], b['ret_imports'])),
+            {'a': b['text'], 'b': a['text']})
+  if a['str'] != b['str']:
+    from vf.checks import c06
+    if c06.only_line_order_differs(a['str'], b['str']) and any(stmt_has_unorderable_dict(s) for s in stmts):
+      ctx.count('config_str_differs_only_in_unorderable_dict_item_order')  # C06's known finding (pprint falls back to object ids), not a layout effect
+    else:
+      ctx.check(False, key_str, 'config_str differs between %s' % what, {'a': b['text'], 'b': a['text']})
+  else:
+    ctx.count('oracle_evals')
+
+
+def model_store(stmts):
+  """The store the abstract program describes (last writer wins)."""
+  exp = {}
+  for s in stmts:
+    if s[0] == 'bind':
+      exp.setdefault((s[1], SELECTORS[s[2]]), {})[s[3]] = store_canon(s[4])
+    elif s[0] == 'macro':
+      exp.setdefault((s[1], 'gin.macro'), {})['value'] = store_canon(s[2])
+  return exp
+
+
+# ---------------------------------------------------------------------------
+# generated negatives
+
+
+def malform(rng, name, op, dotted_scope_ok):
+  """One malformation of a valid scoped name: whitespace next to an inner separator, an empty component, a misplaced separator."""
+  seps = [i for i, ch in enumerate(name) if ch in '/.']
+  p = rng.choice(seps)
+  if op in ('inner-whitespace', 'form-feed', 'continuation'):
+    w = {'inner-whitespace': rng.choice([' ', '  ', '\t', ' \t']), 'form-feed': rng.choice(['\x0c', ' \x0c', '\x0c\x0c']),
+         'continuation': rng.choice(['', ' ']) + '\\\n' + ' ' * rng.randrange(0, 14)}[op]
+    at = p if rng.random() < 0.5 else p + 1
+    return name[:at] + w + name[at:]
+  if op == 'empty-component':
+    k = rng.randrange(3)
+    if k == 0:
+      return name[:p] + name[p] + name[p:]      # doubled separator
+    if k == 1:
+      return rng.choice('/.') + name
+    return name + rng.choice('/.')
+  assert op == 'misplaced-separator', op
+  k = rng.randrange(3)
+  slashes = [i for i in seps if name[i] == '/']
+  if k == 2 and not dotted_scope_ok and len(slashes) >= 2:
+    q = rng.choice(slashes[:-1])                 # a period inside the scope of a statement key: a.b/c3f.x
+    return name[:q] + '.' + name[q + 1:]
+  return name[:p] + ('./' if k == 0 else '/.') + name[p + 1:]
+
+
+BLOCK_MEMBER_NAMES = {
+    'inner-whitespace': ['a /x', 'a/ x', 'a\t/x', 'a/b /x'],
+    'form-feed': ['a\x0c/x', 'a/\x0cx'],
+    'continuation': ['a/\\\n    x', 'a\\\n  /x', 'a/\\\nx'],
+    'empty-component': ['/x', 'x/', 'a//x', '.x', 'x.'],
+    'misplaced-separator': ['a/x', 'a./x', 'a/.x', 'a/b/x'],
+}
+
+
+def render_negative(case):
+  """Returns (text, prefix statements, the malformed statement's text)."""
+  rng = random.Random(case['seed'])
+  ctx_, op = case['ctx'], case['op']
+  prefix = case['prefix']
+  ptext = render(prefix, rng.randrange(1 << 30), final_newline=True)[0] if prefix else ''
+
+  def eq():
+    return rng.choice([' = ', ' = ', '=', '\t=\t', ' \\\n      = ', ' = \\\n   '])
+
+  use_macro = ctx_ == 'macro-value' or (ctx_ not in ('ref-value',) and rng.random() < 0.35)
+  if use_macro:
+    sig, base, tail = '%', rng.choice(['a/c3mac', 'a.b/mm', 'a/b/mm', 'x.y/c3.mac']), ''
+  else:
+    sig, base, tail = '@', rng.choice(['a/c3g', 'a/b/c3h', 'c3.m.c3g', 'x.y/c3g', 'a/m.c3h']), rng.choice(['', '()'])
+  key = rng.choice(['c3f.x', 'a/c3g.y', 'c3.m.c3f.zz'])
+  if ctx_ == 'flat-key':
+    bad = malform(rng, rng.choice(['a/c3f.x', 'a/b/c3f.y', 'c3.m.c3f.x', 'x/y/z/m.c3h.zz', 'c3f.w_1']), op, False)
+    stmt = bad + eq() + '1'
+  elif ctx_ == 'macro-def-key':
+    bad = malform(rng, rng.choice(['a/c3mac', 'a/b/mm', 'x/y/z/UPPER']), op, False)
+    stmt = bad + eq() + rng.choice(['1', "'s'", '[1, 2]'])
+  elif ctx_ == 'block-header':
+    bad = malform(rng, rng.choice(['a/c3f', 'a/b/c3.m.c3f', 'c3.m.c3g', 'x/y/z/m.c3h']), op, False)
+    stmt = bad + rng.choice(['', '', ' ']) + ':' + rng.choice(['', '  # c']) + '\n' + rng.choice(['  ', '\t', ' ']) + 'x = 1'
+  elif ctx_ == 'block-member':
+    bad = rng.choice(BLOCK_MEMBER_NAMES[op])
+    stmt = rng.choice(['c3f', 'a/c3g', 'c3.m.c3f']) + ':\n' + rng.choice(['  ', '\t', '    ']) + bad + eq() + '1'
+  else:
+    bad = sig + malform(rng, base, op, True) + tail
+    if ctx_ in ('ref-value', 'macro-value'):
+      val = bad
+    elif ctx_ == 'in-list':
+      val = rng.choice(['[1, %s, 2]', '[%s]', '(%s,)', '[[%s], 2]', '(1, [2, %s])']) % bad
+    elif ctx_ == 'dict-key':
+      val = rng.choice(['{%s: 1}', "{'k': 0, %s: 1}", '{ %s : [1] }', '[{%s: 1}]']) % bad
+    elif ctx_ == 'dict-value':
+      val = rng.choice(["{'k': %s}", "{'k': %s, 'l': 1}", "{1: [%s]}", "{'k': {'l': %s}}"]) % bad
+    elif ctx_ == 'later-line':
+      val = rng.choice(['[\n  1,\n  %s\n]', '[1,  # c\n %s]', "{'k':\n     %s}", '(\n\n\t%s,\n)']) % bad
+    else:
+      assert ctx_ == 'after-triple-quoted', ctx_
+      val = rng.choice(["['''a\nb''', %s]", '["""x\n""",\n %s]', "{'''k\n''': %s}"]) % bad
+    stmt = key + eq() + val
+  text = ptext
+  if rng.random() < 0.3:
+    text += rng.choice(['# comment\n', '\n', '   \n', '# c \\\n'])
+  text += stmt + rng.choice(['', '', '  # trailing'])
+  k = rng.random()
+  if k < 0.5:
+    text += '\nc3g.x = 6\n'
+  elif k < 0.75:
+    text += '\n'
+  return text, prefix, stmt
+
+
+# ---------------------------------------------------------------------------
+# oracle
+
+
+def run_negative_list(ctx, case, gin, gc):
+  bucket, text = NEGATIVES[case['which']]
+  ctx.bucket(bucket)
+  full = ('c3g.y = 5\n' if case['prefix'] else '') + text + '\nc3g.x = 6\n'
+  gin.clear_config()
+  try:
+    gin.parse_config(full)
+    ctx.check(False, 'malformed-name-accepted', 'text %r accepted; store %r' % (text, dict(gc._CONFIG)))
+  except Exception as e:  # pylint: disable=broad-except
+    # "rejected rather than silently repaired": any error will do (usually SyntaxError; '//' is one token, so `@a//g` is
+    # read as reference `@a` followed by junk and may surface as the unknown-reference ValueError first)
+    ctx.count('negatives_rejected')
+    ctx.bucket('neg-exception:' + type(e).__name__)
+    got_store = snap.store_nonempty(gc)
+    if bucket == 'neg:spelling-valid-elsewhere-first':
+      # everything before the malformed (last) statement is valid and applied
+      gin.clear_config()
+      lines = text.split('\n')
+      cut = max(i for i, l in enumerate(lines) if l and not l.startswith(' '))
+      gin.parse_config(('c3g.y = 5\n' if case['prefix'] else '') + '\n'.join(lines[:cut]) + '\n')
+      exp = snap.store_nonempty(gc)
+    else:
+      exp = {('', 'c3.m.c3g'): {'y': canon(5)}} if case['prefix'] else {}
+    ctx.check(got_store == exp, 'malformed-name-bound-something', 'after rejecting %r the store is %r' % (text, got_store))
+  ctx.fp('neg', text)
+
+
+def run_negative_generated(ctx, case, gin, gc):
+  text, prefix, stmt = render_negative(case)
+  ctx.bucket('neg-ctx:' + case['ctx'])
+  ctx.bucket('neg-op:' + case['op'])
+  ctx.bucket({'inner-whitespace': 'neg:inner-whitespace', 'form-feed': 'neg:form-feed', 'continuation': 'neg:continuation-inside-name',
+              'empty-component': 'neg:empty-component', 'misplaced-separator': 'neg:misplaced-separator'}[case['op']])
+  if prefix:
+    ctx.bucket('neg-after-rendered-prefix')
+  gin.clear_config()
+  try:
+    gin.parse_config(text)
+    ctx.check(False, 'malformed-name-accepted', 'statement %r (%s, %s) accepted; store %r' % (stmt, case['ctx'], case['op'], dict(gc._CONFIG)), {'text': text})
+  except Exception as e:  # pylint: disable=broad-except
+    ctx.count('generated_negatives_rejected')
+    ctx.bucket('neg-exception:' + type(e).__name__)
+    got_store = snap.store_nonempty(gc)
+    # the statements before the malformed one are valid and applied; the malformed one binds nothing (under no repaired name either)
+    exp = model_store(prefix)
+    ctx.check(got_store == exp, 'malformed-name-bound-something', 'after rejecting %r (%s, %s) store vs prefix program: %r'
+              % (stmt, case['ctx'], case['op'], snap.diff(got_store, exp)), {'text': text})
+  ctx.fp('neg2', case['ctx'], case['op'], stmt)
+
+
+def empty_text(case):
+  k = case['shape']
+  if k < len(EMPTY_SHAPES):
+    return EMPTY_SHAPES[k]
+  return render([], case['seed'])[0]      # blank / comment lines of the layout randomiser
+
+
+def run_empty(ctx, case, gin, gc):
+  text = empty_text(case)
+  ctx.bucket('shape:empty-text' if text == '' else 'shape:whitespace-only' if not text.strip() else 'shape:comment-only')
+  try:
+    got = parser_stream(text)
+    ctx.check(got == [], 'statement-stream-differs', 'statement-free text %r read as %r' % (text, got), {'text': text})
+  except Exception as e:  # pylint: disable=broad-except
+    ctx.check(False, 'valid-layout-rejected', 'statement-free text %r raised %s: %s' % (text, type(e).__name__, str(e)[:300]), {'text': text})
+  form = effective_form(text, case['entry'])
+  ctx.bucket('empty-entry:' + form)
+  gin.clear_config()
+  if case['onto']:
+    gin.parse_config('import os.path as c3al\nc3g.y = 5\na/c3mac = [1]\n')
+  before = (snap.store_nonempty(gc), sorted({(s.module, bool(s.is_from), s.alias or '') for s in gc._IMPORTS}), gin.config_str())
+  try:
+    ret = parse_via(gin, text, form)
+  except Exception as e:  # pylint: disable=broad-except
+    ctx.check(False, 'valid-layout-rejected-by-parse_config', 'statement-free text %r (as %s) raised %s: %s' % (text, form, type(e).__name__, str(e)[:300]),
+              {'text': text, 'form': form})
+    return
+  ctx.count('empty_texts_parsed')
+  after = (snap.store_nonempty(gc), sorted({(s.module, bool(s.is_from), s.alias or '') for s in gc._IMPORTS}), gin.config_str())
+  ctx.check(after == before and list(ret[0]) == [] and list(ret[1]) == [], 'statement-free-text-changes-configuration',
+            'text %r (as %s) spells no statement but changed the configuration / returned %r' % (text, form, ret), {'text': text, 'form': form})
+  ctx.fp('empty', text, form)
+
+
 def run_case(ctx, case):
   import gin
   from gin import config as gc
   if case['kind'] == 'neg':
-    bucket, text = NEGATIVES[case['which']]
-    ctx.bucket(bucket)
-    full = ('c3g.y = 5\n' if case['prefix'] else '') + text + '\nc3g.x = 6\n'
-    gin.clear_config()
-    try:
-      gin.parse_config(full)
-      ctx.check(False, 'malformed-name-accepted', 'text %r accepted; store %r' % (text, dict(gc._CONFIG)))
-    except Exception as e:  # pylint: disable=broad-except
-      # "rejected rather than silently repaired": any error will do (usually SyntaxError; '//' is one token, so `@a//g` is
-      # read as reference `@a` followed by junk and may surface as the unknown-reference ValueError first)
-      ctx.count('negatives_rejected')
-      ctx.bucket('neg-exception:' + type(e).__name__)
-      got_store = snap.store_nonempty(gc)
-      if bucket == 'neg:spelling-valid-elsewhere-first':
-        # everything before the malformed (last) statement is valid and applied
-        gin.clear_config()
-        lines = text.split('\n')
-        cut = max(i for i, l in enumerate(lines) if l and not l.startswith(' '))
-        gin.parse_config(('c3g.y = 5\n' if case['prefix'] else '') + '\n'.join(lines[:cut]) + '\n')
-        exp = snap.store_nonempty(gc)
-      else:
-        exp = {('', 'c3.m.c3g'): {'y': canon(5)}} if case['prefix'] else {}
-      ctx.check(got_store == exp, 'malformed-name-bound-something', 'after rejecting %r the store is %r' % (text, got_store))
-    ctx.fp('neg', text)
-    return
+    return run_negative_list(ctx, case, gin, gc)
+  if case['kind'] == 'neg2':
+    return run_negative_generated(ctx, case, gin, gc)
+  if case['kind'] == 'empty':
+    return run_empty(ctx, case, gin, gc)
 
   stmts = case['stmts']
   kinds = []
@@ -333,17 +856,22 @@ def run_case(ctx, case):
       ctx.bucket('stmt:keyword-named')
     if st[0] == 'bind':
       ctx.bucket('stmt:bind')
-      ctx.bucket({'ref': 'value:reference', 'macro': 'value:macro'}.get(st[4][0], 'value:literal'))
+      ctx.bucket({'ref': 'value:reference', 'macro': 'value:macro', 'mix': 'value:container'}.get(st[4][0], 'value:literal'))
     elif st[0] == 'macro':
       ctx.bucket('stmt:scoped-macro' if '/' in st[1] else 'stmt:macro')
     elif st[0] == 'import':
       ctx.bucket('stmt:' + st[1])
     else:
       ctx.bucket('stmt:include')
+    if st[0] in ('bind', 'macro') and st[-1][0] == 'mix' and mix_has_reference(st[-1][1]):
+      ctx.bucket('value:container-with-references')
     kinds.append(st[0])
   if len(case['seeds']) >= 3:
     ctx.bucket('renderings:3+')
   want = [abstract(s) for s in stmts]
+  # what the consumer must have recorded: every import statement with its form and alias
+  want_imports = sorted({(w[1], bool(w[2]), w[3] or '') for w in want if w[0] == 'import'})
+  want_modules = sorted({w[1] for w in want if w[0] == 'import'})
   results = []
   allused = set()
   for seed in case['seeds']:
@@ -367,42 +895,64 @@ def run_case(ctx, case):
     # (b) real parse (includes removed: they need files, covered by C14)
     noinc = [s for s in stmts if s[0] != 'include']
     text2, _, _ = render(noinc, seed)
-    gin.clear_config()
     try:
-      gin.parse_config(text2, skip_unknown=False)
+      obs = observe(gin, gc, text2, 'string')
     except Exception as e:  # pylint: disable=broad-except
       ctx.check(False, 'valid-layout-rejected-by-parse_config', 'parse_config raised %s: %s\n%s' % (type(e).__name__, str(e)[:300], text2[:1500]), {'text': text2})
       continue
     ctx.count('renderings_parsed')
-    results.append((snap.store_nonempty(gc), sorted({(s.module, s.is_from, s.alias or '') for s in gc._IMPORTS}), gin.config_str(), text2))
+    results.append(obs)
   for r in results[1:]:
-    ctx.check(r[0] == results[0][0] and r[1] == results[0][1], 'layouts-give-different-configuration',
-              'two layouts of the same statements give different stores/imports: %r' % (snap.diff(r[0], results[0][0]),), {'a': results[0][3], 'b': r[3]})
-    if r[2] != results[0][2]:
-      from vf.checks import c06
-      if c06.only_line_order_differs(r[2], results[0][2]) and any(s[0] in ('bind', 'macro') and s[-1][0] == 'lit' and c06.has_unorderable_dict(s[-1][1]) for s in stmts):
-        ctx.count('config_str_differs_only_in_unorderable_dict_item_order')  # C06's known finding (pprint falls back to object ids), not a layout effect
-      else:
-        ctx.check(False, 'layouts-give-different-config_str', 'config_str differs between layouts', {'a': results[0][3], 'b': r[3]})
-    else:
-      ctx.count('oracle_evals')
-  # the store must be what the abstract program says (last writer wins)
+    compare_observations(ctx, r, results[0], stmts, 'layouts-give-different-configuration', 'layouts-give-different-config_str', 'two layouts of the same statements')
   if results:
-    exp = {}
-    for s in stmts:
-      if s[0] == 'bind':
-        sel = {'c3f': 'c3.m.c3f', 'c3g': 'c3.m.c3g', 'c3.m.c3f': 'c3.m.c3f', 'm.c3h': 'c3.m.c3h', 'include': 'c3.m.include'}[s[2]]
-        exp.setdefault((s[1], sel), {})[s[3]] = store_canon(s[4])
-      elif s[0] == 'macro':
-        exp.setdefault((s[1], 'gin.macro'), {})['value'] = store_canon(s[2])
-    ctx.check(results[0][0] == exp, 'store-differs-from-abstract-program', 'store vs abstract program: %r' % (snap.diff(results[0][0], exp),), {'text': results[0][3]})
+    # the store must be what the abstract program says (last writer wins)
+    exp = model_store(stmts)
+    ctx.check(results[0]['store'] == exp, 'store-differs-from-abstract-program', 'store vs abstract program: %r' % (snap.diff(results[0]['store'], exp),),
+              {'text': results[0]['text']})
+    # ... and so must the imports: the recorded statements (module, from-form, alias) and the returned module names
+    ctx.check(results[0]['imports'] == want_imports, 'recorded-imports-differ-from-abstract-program',
+              'recorded imports %r, the text spells %r' % (results[0]['imports'], want_imports), {'text': results[0]['text']})
+    ctx.check(results[0]['ret_imports'] == want_modules and results[0]['ret_includes'] == [], 'returned-imports-differ-from-abstract-program',
+              'parse_config returned imports %r, the text spells %r' % (results[0]['ret_imports'], want_modules), {'text': results[0]['text']})
+    if any(a for _, _, a in want_imports):
+      ctx.bucket('imports:alias-recorded')
+    # (c) the same text through another documented input form of parse_config
+    if ENABLE_ENTRY_FORMS:
+      base = results[-1]
+      form = effective_form(base['text'], case.get('entry', 'list-of-lines'))
+      ctx.bucket('entry:' + form)
+      try:
+        alt = observe(gin, gc, base['text'], form)
+      except Exception as e:  # pylint: disable=broad-except
+        ctx.check(False, 'valid-layout-rejected-via-entry-form:' + form, 'parse_config of the text as %s raised %s: %s\n%s'
+                  % (form, type(e).__name__, str(e)[:300], base['text'][:1500]), {'text': base['text'], 'form': form})
+      else:
+        ctx.count('entry_forms_compared')
+        compare_observations(ctx, alt, base, stmts, 'entry-form-gives-different-configuration:' + form, 'entry-form-gives-different-config_str:' + form,
+                             'the string and the %s form of one text' % form)
   ctx.fp(tuple(kinds), tuple(sorted(allused)))
   ctx.sample({'statements': stmts[:4], 'one_rendering': render(stmts, case['seeds'][0])[0][:600]}, cap=3)
+
+
+def mix_store(node):
+  """teq.canon of the stored value, built from the abstract tree (references as stored ConfigurableReferences)."""
+  k = node[0]
+  if k == 'L':
+    return ('list', tuple(mix_store(x) for x in node[1]))
+  if k == 'T':
+    return ('tuple', tuple(mix_store(x) for x in node[1]))
+  if k == 'D':
+    return ('dict', tuple((mix_store(a), mix_store(b)) for a, b in node[1]))
+  if k in ('lit', 'tq'):
+    return canon(node[1])
+  return store_canon(node)
 
 
 def store_canon(v):
   if v[0] == 'lit':
     return canon(v[1])
+  if v[0] == 'mix':
+    return mix_store(v[1])
   if v[0] == 'ref':
     scopes, _, sel = v[1].rpartition('/')
     full = {'c3g': 'c3.m.c3g', 'c3.m.c3g': 'c3.m.c3g', 'c3h': 'c3.m.c3h', 'm.c3h': 'c3.m.c3h'}[sel]
@@ -414,7 +964,11 @@ def store_canon(v):
 
 LEVEL_TEXT = ('Runtime metamorphic monitor: each generated abstract statement list is rendered in 2-5 randomised layouts; the real parser\'s statement '
               'stream (with line numbers) is compared with the abstract list (the generator, not a second parse, is the oracle) and the real '
-              'parse_config results (store, imports, config_str) are compared across layouts; malformed scoped names must raise SyntaxError and bind nothing.')
-LEVEL_NOTE = 'Trusted: the renderer in this file (it only emits layouts Python\'s tokenizer rules allow: consistent indentation stacks, no CRLF, no tabs for indentation).'
-TECHNIQUE = 'runtime metamorphic monitor (layout A vs layout B vs abstract program) over a layout randomiser'
+              'parse_config results (store, recorded imports, config_str) are compared across layouts, across the input forms of parse_config (string, '
+              'list/tuple of lines, StringIO, BytesIO, file) and with the abstract program; statement-free texts must change nothing; malformed scoped '
+              'names (a fixed list and malformations generated from valid names in every syntactic position, after a rendered valid prefix) must raise '
+              'and bind nothing.')
+LEVEL_NOTE = ('Trusted: the renderer in this file (it only emits layouts Python\'s tokenizer rules allow: indentation levels that extend the enclosing '
+              'level\'s string, no CRLF); dicts hold at most one reference-like key (two cannot be ordered by pprint: C06\'s finding).')
+TECHNIQUE = 'runtime metamorphic monitor (layout A vs layout B vs abstract program vs input form) over a layout randomiser'
 DESIGN_REF = 'DESIGN.md section 4, C03'
